@@ -381,6 +381,15 @@ def _map_append(eng, st, fr, t, args, dest, target):
     r2, p2 = ptr_of(eng, st, args[1])
     a = eng.force(st, eng.load(st, r, p))
     b = eng.force(st, eng.load(st, r2, p2))
+    lid = eng.enclosing_loop(fr)
+    h = eng.hooks.get('map_append')
+    if h:
+        h(eng, st, fr, t, a, b)
+    if lid is not None:
+        if not (a[0] == 'mapsum' and a[2] == lid and a[3] == b):
+            eng.store(st, r, p, ('mapsum', a, lid, b))
+        eng.store(st, r2, p2, ('map', None, ()))
+        return UNIT
     eng.store(st, r, p, ('app', 'map_append', (a, b)))
     eng.store(st, r2, p2, ('map', None, ()))
     return UNIT
@@ -634,6 +643,9 @@ def _vec_new(eng, st, fr, t, args, dest, target):
 def _vec_push(eng, st, fr, t, args, dest, target):
     r, p = ptr_of(eng, st, args[0])
     v = eng.force(st, eng.load(st, r, p))
+    h = eng.hooks.get('vec_push')
+    if h:
+        h(eng, st, fr, t, (r, p), args[1])
     lid = eng.enclosing_loop(fr)
     if lid is not None and v[0] == 'vec':
         seen = fr.loops.get(lid[1])
@@ -849,3 +861,60 @@ def _drive_fold(eng, st, dest, target, f, items, i, acc, enum):
 for _n in ('<std::iter::Enumerate<I> as std::iter::Iterator>::fold', "<std::slice::Iter<'a, T> as std::iter::Iterator>::fold",
            'std::iter::Iterator::fold'):
     MODELS[_n] = _fold
+
+
+# ------------------------------------------------------------ threads / channels
+@model('std::sync::mpsc::channel')
+def _channel(eng, st, fr, t, args, dest, target):
+    cid = (fr.body.path, fr.block)
+    eng.event(st, 'chan-new', chan=cid)
+    eng.event(st, 'sender-new', sender=('sender', cid, 'orig'), how='channel()')
+    return ('tuple', (('sender', cid, 'orig'), ('receiver', cid)))
+
+
+@model('<std::sync::mpsc::Sender<T> as std::clone::Clone>::clone')
+def _sender_clone(eng, st, fr, t, args, dest, target):
+    v = deref(eng, st, args[0])
+    if v[0] == 'sender':
+        nv = ('sender', v[1], ('clone', fr.body.path, fr.block))
+        eng.event(st, 'sender-new', sender=nv, how='clone', of=v)
+        return nv
+    return ('app', 'sender_clone', (v,))
+
+
+@model('std::sync::mpsc::Sender::<T>::send')
+def _send(eng, st, fr, t, args, dest, target):
+    v = deref(eng, st, args[0])
+    eng.event(st, 'send', sender=v, value=eng.purify(st, args[1]), fn=fr.body.path)
+    return ('app', 'send', (v, eng.purify(st, args[1])))
+
+
+@model('std::sync::mpsc::Receiver::<T>::recv')
+def _recv(eng, st, fr, t, args, dest, target):
+    v = deref(eng, st, args[0])
+    lid = eng.enclosing_loop(fr)
+    eng.event(st, 'recv', receiver=v, fn=fr.body.path, loop=lid)
+    return ite(('iterhas', lid, ('recv', v)), OK(('iterval', lid, ('recv', v))), ERR(('app', 'RecvError', ())))
+
+
+@model("std::thread::Scope::<'scope, 'env>::spawn")
+def _spawn(eng, st, fr, t, args, dest, target):
+    clo = eng.force(st, args[1])
+    hid = ('joinhandle', fr.body.path, fr.block)
+    eng.event(st, 'spawn', closure=clo, handle=hid, loop=eng.enclosing_loop(fr), fn=fr.body.path)
+    return hid
+
+
+@model("std::thread::ScopedJoinHandle::<'scope, T>::join")
+def _join(eng, st, fr, t, args, dest, target):
+    h = eng.force(st, args[0])
+    eng.event(st, 'join', handle=h, fn=fr.body.path)
+    return ('app', 'join', (h,))
+
+
+@model('std::thread::scope')
+def _scope(eng, st, fr, t, args, dest, target):
+    sc = mk_ref(('S', ('scope', fr.body.path, fr.block)), ())
+    eng.event(st, 'scope', fn=fr.body.path)
+    eng.call_callable(st, args[0], [sc], ('wrap', dest, target, lambda x: x))
+    return DEFER
